@@ -162,6 +162,19 @@ static void mutex_work(int idx, uint64_t seed, struct tres* out) {
 static pthread_barrier_t start_bar;
 static int phase;       /* 0: workload, 1: mutex, 2: publish */
 
+static var TH[MAXT], IX[MAXT];
+static var TH_at(int i) { return TH[i]; }
+static volatile int run_done[MAXT];      /* set by the worker as its last action (atomic: it is what join is checked against) */
+
+/* join must not return before the thread function has finished */
+static void join_checked(int i) {
+  join(TH_at(i));
+  if (!__atomic_load_n(&run_done[i], __ATOMIC_ACQUIRE)) {
+    vh_violation("C13:join:returned-before-the-thread-function-finished", "join of thread %d returned while its function was still running (phase %d)", i, phase);
+    for (int spin = 0; spin < 100000 && !__atomic_load_n(&run_done[i], __ATOMIC_ACQUIRE); spin++) { usleep(100); }
+  }
+}
+
 static var thread_main(var args) {
   int idx = (int)c_int(get(args, $I(0)));
   mo_thread_index = idx + 1;
@@ -174,28 +187,29 @@ static var thread_main(var args) {
     usleep((useconds_t)vh_below(&r, 2000));
     for (int i = 0; i < 64; i++) { out->published[i] = idx * 1000 + i; }
   }
+  __atomic_store_n(&run_done[idx], 1, __ATOMIC_RELEASE);
   return NULL;
 }
 
+/* Thread objects are created once per trial and RE-USED for every phase (call, join, call again, ...):
+   join must wait for the function of the CURRENT run each time */
+
 static void run_threads(int n, int ph) {
-  var th[MAXT], ix[MAXT];
-  var fn = $(Function, thread_main);           /* outlives every thread: all are joined below */
   phase = ph;
   if (ph != 9) { pthread_barrier_init(&start_bar, NULL, (unsigned)n); }
-  for (int i = 0; i < n; i++) { ix[i] = new_raw(Int, $I(i)); th[i] = new_raw(Thread, fn); }
-  for (int i = 0; i < n; i++) { call(th[i], ix[i]); }
+  for (int i = 0; i < n; i++) { run_done[i] = 0; }
+  for (int i = 0; i < n; i++) { call(TH[i], IX[i]); }
   if (ph == 2) {
-    /* join publishes: read what each worker wrote, immediately after join, in random order */
+    /* join publishes: read what each worker wrote, immediately after join, in reverse order */
     for (int i = n - 1; i >= 0; i--) {
-      join(th[i]);
+      join_checked(i);
       for (int k = 0; k < 64; k++) {
         if (RES[i].published[k] != i * 1000 + k) { vh_violation("C13:join:effects-of-the-thread-not-visible-after-join", "thread %d slot %d reads %d right after join", i, k, RES[i].published[k]); break; }
       }
     }
   } else {
-    for (int i = 0; i < n; i++) { join(th[i]); }
+    for (int i = 0; i < n; i++) { join_checked(i); }
   }
-  for (int i = 0; i < n; i++) { del_raw(th[i]); del_raw(ix[i]); }
   if (ph != 9) { pthread_barrier_destroy(&start_bar); }
 }
 
@@ -203,16 +217,17 @@ static void one_trial(vh_rng* r, int nthreads) {
   wl_ops = 60 + (int)vh_below(r, vh.thorough ? 200 : 100);
   sections_per_thread = 50 + (int)vh_below(r, 150);
   for (int i = 0; i < nthreads; i++) { SEEDS[i] = vh_next(r); }
+  var fn = $(Function, thread_main);           /* outlives every thread: all are joined before this function returns */
+  for (int i = 0; i < nthreads; i++) { IX[i] = new_raw(Int, $I(i)); TH[i] = new_raw(Thread, fn); }
   /* solo reference runs: one Cello thread at a time */
   memset(SOLO, 0, sizeof SOLO);
   for (int i = 0; i < nthreads; i++) {
     memset(&RES[i], 0, sizeof RES[i]);
-    var fn = $(Function, thread_main);
-    var ixo = new_raw(Int, $I(i));
-    var t = new_raw(Thread, fn);
     phase = 9;
-    call(t, ixo); join(t);
-    del_raw(t); del_raw(ixo);
+    run_done[i] = 0;
+    call(TH[i], IX[i]); join_checked(i);
+    vh_eval();
+    if (RES[i].digest == 0) { vh_violation("C13:join:returned-before-the-thread-function-finished", "solo run of thread %d: no result after join", i); }
     SOLO[i] = RES[i];
   }
   /* concurrent run of the same workloads */
@@ -252,6 +267,8 @@ static void one_trial(vh_rng* r, int nthreads) {
   memset(RES, 0, sizeof RES);
   run_threads(nthreads, 2);
   vh_count_n("join_publish_threads", (uint64_t)nthreads);
+  vh_count_n("thread_objects_reused_for_4_runs", (uint64_t)nthreads);
+  for (int i = 0; i < nthreads; i++) { del_raw(TH[i]); del_raw(IX[i]); }
   /* the observed interleaving is part of the case's identity */
   vh_op("threads=%d ops=%d sections=%d acquisition-order=%016" PRIx64 " handovers=%ld", nthreads, wl_ops, sections_per_thread, oh, handovers);
   if (handovers > 0 && bad == 0) { vh_nontrivial(); }
